@@ -31,7 +31,7 @@ class H:
 
     def __init__(self, name, tier="quick", unwind=None, loops=None, recursion=None, timeout=600,
                  mem_gb=16, desc="", covers=None, termination=None, stubs=None, bounds=None,
-                 weight=1, expect_unsat_covers=(), fs_array=512, rotate=False):
+                 weight=1, expect_unsat_covers=(), fs_array=512, rotate=False, est_gb=3):
         self.name = name            # path below `verif::`, e.g. c15_thread_names::c15_n1_named
         self.tier = tier            # quick harnesses also run in thorough
         self.unwind = unwind        # global unwind (None: harness attribute, default 2)
@@ -46,6 +46,7 @@ class H:
         self.expect_unsat_covers = expect_unsat_covers
         self.fs_array = fs_array  # cbmc --max-field-sensitivity-array-size (default 64 loses constants in >64-element arrays)
         self.rotate = rotate
+        self.est_gb = est_gb    # expected peak RSS, used for admission (sum of running estimates <= VERIF_MEM_GB)
 
     @property
     def full(self):
@@ -252,8 +253,22 @@ def main(argv):
     outcomes = []
     lock = threading.Lock()
 
+    budget = float(os.environ.get("VERIF_MEM_GB", "44"))
+    cond = threading.Condition()
+    in_use = [0.0]
+
     def work(h):
-        r = run_harness(h, metas[h.full], workdir)
+        need = min(h.est_gb, budget)
+        with cond:
+            while in_use[0] + need > budget:
+                cond.wait()
+            in_use[0] += need
+        try:
+            r = run_harness(h, metas[h.full], workdir)
+        finally:
+            with cond:
+                in_use[0] -= need
+                cond.notify_all()
         with lock:
             tag = {"pass": "ok  ", "violation": "FAIL", "inconclusive": "??? "}.get(r.state, r.state)
             extra = r.reason if r.state != "pass" else "%d checks" % r.nprops
